@@ -18,6 +18,7 @@
 #include "session_posix_file_storage.h"
 #include <booster/shared_ptr.h>
 #include <dlfcn.h>
+#include <signal.h>
 #include <unistd.h>
 #include <fcntl.h>
 #include <errno.h>
@@ -145,7 +146,8 @@ static lres do_load(int f)
 {
 	lres r; r.ok=false; r.dl=0;
 	time_t to=0; std::string out="<untouched>";
-	r.ok=st->load(sid(f),to,out);
+	try { r.ok=st->load(sid(f),to,out); }
+	catch(std::exception const &e) { tr.line(vt::J().s("e","Died").s("what",e.what()).str()); tr.close(); _exit(0); }
 	if(r.ok) { r.ids=ids_of(out); r.dl=rel(to); if(r.ids.empty()) r.ids.push_back(-1); }
 	r.ex=exists(f);
 	return r;
@@ -415,7 +417,8 @@ static void gc_mode(int execs,bool thorough)
 			}
 			else {
 				std::vector<int> before=listing();
-				fac->gc_job();
+				try { fac->gc_job(); }
+				catch(std::exception const &e) { tr.line(vt::J().s("e","Died").s("what",e.what()).str()); tr.close(); _exit(0); }
 				std::vector<int> after=listing();
 				tr.line(vt::J().s("e","Gc").a("before",before).a("after",after).str()); ngc++;
 			}
@@ -466,8 +469,16 @@ static void short_mode(bool thorough)
 	printf("short_saves=%ld load_none=%ld load_ok=%ld\n",total,lost,kept);
 }
 
+static void on_signal(int sig)
+{
+	// a crash of load()/gc() is part of the property: make it visible in the trace (no action of the spec matches Died)
+	char b[64]; snprintf(b,sizeof(b),"signal %d",sig);
+	tr.line(vt::J().s("e","Died").s("what",b).str()); tr.close(); _exit(0);
+}
+
 int main(int argc,char **argv)
 {
+	signal(SIGSEGV,on_signal); signal(SIGABRT,on_signal); signal(SIGBUS,on_signal); signal(SIGFPE,on_signal);
 	if(argc<2) { fprintf(stderr,"usage: fs_drv crash i n | gc execs | short\n"); return 2; }
 	std::string mode=argv[1];
 	char const *work=getenv("VERIF_WORK");
